@@ -762,8 +762,9 @@ func (g *Generator) generateRootMapUnwrapMarshalJSON(gf *protogen.GeneratedFile,
 
 	// Check if we have combined unwrap (root map + value unwrap)
 	switch {
-	case rootUnwrap.ValueUnwrap != nil:
+	case rootUnwrap.ValueUnwrap != nil && !rootUnwrap.ValueUnwrap.IsMapField:
 		// Combined unwrap: root map with value that also has unwrap
+		// (a value that is itself a root MAP unwrap is not a list wrapper: it codes itself, see the next case)
 		g.generateRootMapWithValueUnwrapMarshal(gf, rootUnwrap, fieldName)
 	case rootUnwrap.ValueMessage != nil:
 		// Root map with message values (no value unwrap)
@@ -830,7 +831,14 @@ func (g *Generator) generateRootMapMessageValueMarshal(
 	gf.P("out := make(map[string]json.RawMessage)")
 	gf.P("for k, v := range x.", fieldName, " {")
 	gf.P("if v != nil {")
-	gf.P("data, err := protojson.Marshal(v)")
+	gf.P("// A value with its own MarshalJSON (e.g. a root map unwrap message) writes itself")
+	gf.P("var data []byte")
+	gf.P("var err error")
+	gf.P("if valueMarshaler, ok := any(v).(json.Marshaler); ok {")
+	gf.P("data, err = valueMarshaler.MarshalJSON()")
+	gf.P("} else {")
+	gf.P("data, err = protojson.Marshal(v)")
+	gf.P("}")
 	gf.P("if err != nil {")
 	gf.P("return nil, err")
 	gf.P("}")
@@ -851,7 +859,7 @@ func (g *Generator) generateRootMapUnwrapUnmarshalJSON(gf *protogen.GeneratedFil
 
 	// Check if we have combined unwrap (root map + value unwrap)
 	switch {
-	case rootUnwrap.ValueUnwrap != nil:
+	case rootUnwrap.ValueUnwrap != nil && !rootUnwrap.ValueUnwrap.IsMapField:
 		g.generateRootMapWithValueUnwrapUnmarshal(gf, rootUnwrap, fieldName)
 	case rootUnwrap.ValueMessage != nil:
 		g.generateRootMapMessageValueUnmarshal(gf, rootUnwrap, fieldName)
@@ -925,8 +933,15 @@ func (g *Generator) generateRootMapMessageValueUnmarshal(
 	gf.P("x.", fieldName, " = make(map[string]*", gf.QualifiedGoIdent(valueTypeIdent), ")")
 	gf.P("for k, v := range mapRaw {")
 	gf.P("item := &", valueTypeIdent, "{}")
-	gf.P("if err := protojson.Unmarshal(v, item); err != nil {")
-	gf.P("return err")
+	gf.P("// A value with its own UnmarshalJSON (e.g. a root map unwrap message) reads itself")
+	gf.P("var valueErr error")
+	gf.P("if valueUnmarshaler, ok := any(item).(json.Unmarshaler); ok {")
+	gf.P("valueErr = valueUnmarshaler.UnmarshalJSON(v)")
+	gf.P("} else {")
+	gf.P("valueErr = protojson.Unmarshal(v, item)")
+	gf.P("}")
+	gf.P("if valueErr != nil {")
+	gf.P("return valueErr")
 	gf.P("}")
 	gf.P("x.", fieldName, "[k] = item")
 	gf.P("}")
